@@ -59,6 +59,7 @@ type engineCtx struct {
 // estimates, combined into a units move (verif hook) and executed.
 func (c *engineCtx) planGroup(id string, step int, sol nextroute.Solution, group nextroute.SolutionPlanUnitsUnit, fs []string) {
 	atoi := func(s string) int { i, _ := strconv.Atoi(s); return i }
+	fmt.Fprintf(out, "%s %d target %d\n", id, step, unitKey(group.ModelPlanUnit()))
 	vehicles := sol.Vehicles()
 	v := atoi(fs[1]) % len(vehicles)
 	route := vehicles[v].SolutionStops()
@@ -598,6 +599,10 @@ func runEngine(b block) {
 						continue
 					}
 				}
+				if len(ukeys) > 0 {
+					r0, _ := strconv.Atoi(fs[2])
+					fmt.Fprintf(out, "%s %d target %d\n", b.id, step, ukeys[r0%len(ukeys)])
+				}
 				v, args, ok := c.resolvePlan(sol, fs[2:])
 				if !ok {
 					fmt.Fprintf(out, "%s %d result noop\n", b.id, step)
@@ -624,6 +629,7 @@ func runEngine(b block) {
 					continue
 				}
 				r, _ := strconv.Atoi(fs[2])
+				fmt.Fprintf(out, "%s %d target %d\n", b.id, step, keys[r%len(keys)])
 				top := findTop(sol.PlannedPlanUnits(), keys[r%len(keys)])
 				if g, isGroup := top.(nextroute.SolutionPlanUnitsUnit); isGroup {
 					ok, err := g.UnPlan()
